@@ -42,7 +42,7 @@ def f_tensor(data, *a, dtype=None, device=None, requires_grad=False, **kw):
         if requires_grad:
             r.requires_grad_()
         return r
-    if _mode() == "sym" and cx.CUR.env.get("lift_tensor", True):
+    if _mode() == "sym" and cx.CUR.env.get("lift_tensor", True) and not _caller_is_torch():
         # lift Python numbers exactly (no float32 round trip) -- see DESIGN C01 "Out"
         if isinstance(data, (int, float, list, tuple)) and not isinstance(data, bool):
             try:
@@ -69,6 +69,17 @@ def _mode():
     return cx.CUR.mode
 
 
+def _caller_is_torch(depth=2):
+    """factory calls made by torch's own Python code (module initialisation, lazy materialisation, ...) keep real torch"""
+    import sys
+
+    try:
+        name = sys._getframe(depth).f_globals.get("__name__", "")
+    except ValueError:
+        return False
+    return name.startswith("torch.") or name == "torch"
+
+
 @contextlib.contextmanager
 def real_torch():
     """Temporarily switch the factories back to real torch (to build real modules in a run)."""
@@ -82,14 +93,14 @@ def real_torch():
 
 
 def f_empty(*size, dtype=None, device=None, **kw):
-    if _mode() == "sym":
+    if _mode() == "sym" and not _caller_is_torch():
         return st.fresh_tensor(_size_args(size), "uninit", dtype)
     return _ORIG["empty"](*_size_args(size), dtype=dtype, device=device, **kw)
 
 
 def _const_factory(name, value):
     def f(*size, dtype=None, device=None, **kw):
-        if _mode() == "sym":
+        if _mode() == "sym" and not _caller_is_torch():
             return st._full(_size_args(size), value, dtype)
         return _ORIG[name](*_size_args(size), dtype=dtype, device=device, **kw)
 
@@ -97,7 +108,7 @@ def _const_factory(name, value):
 
 
 def f_full(size, fill_value, dtype=None, device=None, **kw):
-    if _mode() == "sym" or _has_sym(fill_value):
+    if (_mode() == "sym" and not _caller_is_torch()) or _has_sym(fill_value):
         return st._full(_size_args((size,)), fill_value, dtype)
     return _ORIG["full"](size, fill_value, dtype=dtype, device=device, **kw)
 
